@@ -364,6 +364,17 @@ def run(ctx):
                 ctx.case(dict(ext=ext, crash=mode, ops=[tok(o) for o in ops]), (ext, mode, tuple(tok(o) for o in ops)))
                 ctx.count("kill experiments:" + ext)
                 want = list(range(nxt))
+                if ext == "dcd" and ctx.driver_ok and os.path.exists(path) and os.path.getsize(path) <= 40000:
+                    # the control record of the file the killed writer left behind, read by the byte-level model (c19_dcd_header_counts)
+                    mh = ctx.driver.query(["dcd " + open(path, "rb").read().hex()])[0]
+                    ctx.count("killed .dcd files read by the Lean model")
+                    if not mh.startswith("ok"):
+                        viol("dcd|killed-file|model-reader", ".dcd: %s then the process was %s: the byte-level model cannot follow the file (%s)" % ([tok(o) for o in ops], mode, mh[:40]), dict(ext=ext, ops=[tok(o) for o in ops], crash=mode))
+                    else:
+                        nset_ = int(mh.split(";")[0].split()[1]); held_ = len(mh.split(";")) - 1
+                        if nset_ != nxt or held_ != nxt:
+                            viol("dcd|header-count-after-kill", ".dcd: %s then the process was %s: the control record counts %d frames, the file holds %d, %d were written" % (
+                                [tok(o) for o in ops], mode, nset_, held_, nxt), dict(ext=ext, ops=[tok(o) for o in ops], crash=mode))
                 if err or ids != want:
                     viol("%s|lost-after-flush|%s" % (ext, mode), ".%s: %s then the process was %s: the file loads as %s %s, written and flushed: %s" % (
                         ext, [tok(o) for o in ops], "killed (SIGKILL)" if mode == "kill" else "ended by os._exit", ids, err or "", want),
